@@ -53,7 +53,10 @@ def has_inner_keyref(xsd):
     return any(k for e in root.iter(xs + "element") if e not in top for k in e.findall(xs + "keyref"))
 
 
-def compare_errors(l_errors, e_errors, depth, inner_keyref=False):
+IDENT_MARKS = ("not found for Xsd", "duplicated value", "missing key field")
+
+
+def compare_errors(l_errors, e_errors, depth, inner_keyref=False, padded=False):
     """-> None | (kind, finding id).  F-C06-e: the errors of the elements ABOVE the streamed depth (the root's
     attributes with lazy=1) are reported after the errors of the chunks instead of before them; the two
     subsequences (above / inside the chunks) are each in the fully loaded order."""
@@ -66,6 +69,11 @@ def compare_errors(l_errors, e_errors, depth, inner_keyref=False):
             return [x for x in errs if "not found for Xsd" not in x[1]]
         if depth >= 2 and inner_keyref and rest(l_errors) == rest(e_errors):
             return "errors", "F-C06-f"
+        # F-C06-j: a document larger than the parser's read-ahead: the rows of a constraint declared on an
+        # ANCESTOR of the streamed elements that are parsed after the first selection are never counted
+        if padded and [x for x in l_errors if not any(m in x[1] for m in IDENT_MARKS)] == \
+                [x for x in e_errors if not any(m in x[1] for m in IDENT_MARKS)]:
+            return "errors", "F-C06-j"
         # F-C06-h: a streamed element that no declaration matches (admitted by a strict wildcard of its
         # parent) is skipped silently: the 'element not found' error located at it is missing, nothing else
         missing = list(e_errors)
@@ -140,8 +148,10 @@ def judge(job):
             out.append((about, tag, f"raised {type(e).__name__}: {e}"[:200], None))
             continue
         if l_valid != e_valid:
-            out.append((about, tag, f"is_valid={l_valid}, fully loaded: {e_valid}", None))
-        cmp = compare_errors(l_errors, e_errors, 1)
+            c0 = compare_errors(l_errors, e_errors, 1, padded=about.startswith("identity-padded"))
+            out.append((about, tag, f"is_valid={l_valid}, fully loaded: {e_valid}", None,
+                        "F-C06-j" if c0 and c0[1] == "F-C06-j" and l_valid == (not l_errors) else None))
+        cmp = compare_errors(l_errors, e_errors, 1, padded=about.startswith("identity-padded"))
         if cmp:
             out.append((about, tag, f"errors {l_errors} vs fully loaded {e_errors}"[:900], cmp[0], cmp[1]))
         if not same_data(l_data, e_data):
@@ -166,10 +176,11 @@ def judge(job):
             out.append((about, tag, f"raised {type(e).__name__}: {e}"[:200], None))
             continue
         explored[d] = "same" if le == e_errors else ("same-set" if sorted(le) == sorted(e_errors) else "differs")
-        cmp = compare_errors(le, e_errors, d, inner_keyref=has_inner_keyref(xsds[0]))
+        cmp = compare_errors(le, e_errors, d, inner_keyref=has_inner_keyref(xsds[0]),
+                             padded=about.startswith("identity-padded"))
         if lv != e_valid:
             out.append((about, tag, f"is_valid={lv}, fully loaded: {e_valid}", None,
-                        cmp[1] if cmp and cmp[1] in ("F-C06-f", "F-C06-h") and lv == (not le) else None))
+                        cmp[1] if cmp and cmp[1] in ("F-C06-f", "F-C06-h", "F-C06-j") and lv == (not le) else None))
         if cmp:
             out.append((about, tag, f"errors {le} vs fully loaded {e_errors}"[:900], cmp[0], cmp[1]))
     return out, explored
@@ -249,6 +260,10 @@ def documents(ctx: Ctx, thorough):
         for rec in recs[::step]:
             docs.append(((c08.schema_xsd(1, kind, level, "integer", "attr", "child"),),
                          c08.doc_xml(rec["doc"], "integer", "attr"), f"identity/{kind}/{level} {rec['doc']}"))
+    # the same kind of document, LARGER than the parser's read-ahead: 70 000 characters of comment between the scopes
+    pad = "<!--" + "x" * 70000 + "-->"
+    for d in [x for x in docs if x[2].startswith("identity/key/outer")][:: (3 if thorough else 25)]:
+        docs.append((d[0], d[1].replace("</t:s><t:s>", "</t:s>" + pad + "<t:s>", 1), "identity-padded" + d[2][8:]))
     r = ctx.tlc("Validator", "Validator.cfg", constants={"MaxItems": 2, "Double": "FALSE"}, tag="docs-validator", workers=4)
     for rec in r.json_records()[:: (2 if thorough else 9)]:
         docs.append(((vdoc.XSD,), vdoc.render(rec["nodes"]), f"validator {rec['fault']}"))
